@@ -200,6 +200,9 @@ func (m *Machine) Explore(fn *ssa.Function, prefixes [][]int64, splitAt int) *Ra
 			p = m.work[len(m.work)-1]
 			m.work = m.work[:len(m.work)-1]
 		}
+		if raw.Paths > 0 && raw.Paths%300 == 0 {
+			m.S.Reset() // shed the definitions accumulated by earlier paths
+		}
 		end := m.runPath(fn, p)
 		raw.Paths++
 		m.St.Paths++
@@ -352,7 +355,6 @@ func (m *Machine) runPath(fn *ssa.Function, prefix []int64) (end pathEnd) {
 	m.maxAlloc = 0
 	m.allocLimit = 0
 	m.goMode = ""
-	m.onceDone = nil
 	m.sliceOf = map[*Value][]Value{}
 	m.clock = 0
 	m.model, m.modelValid, m.auxVars = nil, false, nil
